@@ -6,7 +6,11 @@
     with track.add_event_callback / as timeline.on_event_callback calls track.nudge(x_i) on the track whose event is being
     performed, i = (number of events of that track performed so far) mod len(by_pos): a re-entrant call from inside
     Track.perform_event.  (Self-nudging ACTION events need nothing new: their callback table entry is ["nudge", t, x].)
-  * neither "set_tpb" nor "probe" is an operation of the model: they get no index and no observation;
+  * ["set_fail", n]  from now on the n-th (0-based, counted from the start) note_on/control/program_change call of the device
+                     raises (None: no fault); config "dev_fail_exc" names the exception class the device raises
+                     (OSError family: ConnectionRefusedError, BrokenPipeError, TimeoutError, OSError; others: RuntimeError,
+                     ValueError, KeyError) - a device fault cuts the tick of the track short;
+  * "set_tpb", "probe" and "set_fail" are not operations of the model: they get no index and no observation;
   * result: "times" = [[index of the next operation, Timeline.current_time, [Track.current_time of every created track]], ...]
     recorded at every set_tpb and at the end (beats, floats).
 
@@ -24,12 +28,17 @@ import isobar as iso
 from isobar.exceptions import TrackLimitReachedException, TrackNotFoundException
 
 
+EXC = {"ConnectionRefusedError": ConnectionRefusedError, "BrokenPipeError": BrokenPipeError, "TimeoutError": TimeoutError,
+       "OSError": OSError, "RuntimeError": RuntimeError, "ValueError": ValueError, "KeyError": KeyError}
+
+
 class Rec(iso.OutputDevice):
-    def __init__(self, fail_at):
+    def __init__(self, fail_at, exc="RuntimeError"):
         super().__init__()
         self.calls = []
         self.n = 0
         self.fail_at = fail_at
+        self.exc = EXC[exc]
 
     @property
     def ticks_per_beat(self):
@@ -39,7 +48,7 @@ class Rec(iso.OutputDevice):
         k = self.n
         self.n += 1
         if self.fail_at is not None and k == self.fail_at:
-            raise RuntimeError("device fault (scripted)")
+            raise self.exc("device fault (scripted)")
         self.calls.append(c)
 
     def note_on(self, note=60, velocity=64, channel=0):
@@ -80,7 +89,7 @@ class Driver:
         self.sc = sc
         self.U = sc["U"]
         cfg = sc["config"]
-        self.dev = Rec(cfg.get("dev_fail"))
+        self.dev = Rec(cfg.get("dev_fail"), cfg.get("dev_fail_exc", "RuntimeError"))
         self.tl = iso.Timeline(cfg.get("tempo", 120), output_device=self.dev,
                                clock_source=iso.DummyClock(ticks_per_beat=sc["tpb"]),
                                ignore_exceptions=bool(cfg.get("ignore")))
@@ -222,6 +231,9 @@ class Driver:
         if kind == "set_tpb":
             tl.ticks_per_beat = o[1]
             return None
+        if kind == "set_fail":
+            self.dev.fail_at = o[1]
+            return None
         if kind == "probe":
             _ = (tl.tick_duration, tl.ticks_per_beat, tl.current_time, [t.current_time for t in tl.tracks])
             return None
@@ -271,7 +283,7 @@ class Driver:
         sparse, prev, idx = [], [], 0
         times_ok = True
         for o in self.sc["ops"]:
-            if o[0] in ("set_tpb", "probe"):
+            if o[0] in ("set_tpb", "probe", "set_fail"):
                 if o[0] == "set_tpb":
                     self.snapshot(idx)
                 self.exec_op(o)
@@ -294,7 +306,7 @@ class Driver:
                 prev = ids
                 idx += 1
         self.snapshot(idx)
-        return {"obs": sparse, "times": self.times}
+        return {"obs": sparse, "times": self.times, "final_ids": self.ids()}
 
 
 def main():
